@@ -29,21 +29,28 @@
                   - the secondary-error filter                                (the C04_filter_... theorems), NewTypeInfo total
                   - accepted -> 5.3.1, 5.3.3, every field defined, hence 5.4 without side condition
                                                                               (C04_accepted_fields_hold, C04_accepted_arguments_hold)
-    NOT proved: the converse for 5.3.1 / 5.3.3 (valid -> the field visitor is silent), the equivalences
-    for 5.2.3.1 (subscription root), 5.3.2 (FieldsInSetCanMerge / SameResponseShape), 5.5.2 (spreads against the Spec's formulation), 5.8
-    (variables against the Spec's formulation), hence validate_verdict itself; that no secondary error
-    is ever emitted without a primary one (secondary_never_alone:
-      validate_model repaired pi S F D = Done errs -> In e errs -> e_sec e = true -> False;
-    proved for the part of the pipeline the secondary errors hang on — without a primary error
-    every field occurrence is defined on a composite parent, every fragment is declared once on a
-    composite type, and the field visitor, the fragment-declaration rule, the directive rule and the
-    whole spread rule incl. the cycle search are silent: C04_secondary_never_alone_partial; open:
-    arguments, values, variables, operations, the overlapping-fields pass); validate_error_located.  These are
-    covered on every run by the correspondence check and the Spec oracle only. *)
+                  - a secondary error is never returned: when no rule group reports a primary error, no
+                    rule group reports anything (both pipelines)                 (C04_secondary_never_alone, C04_no_primary_then_nothing)
+                  - accepted -> 5.5.2.2 and 5.8.1 - 5.8.5 in the Spec's own formulation; the Spec's
+                    fuel-bounded reachability is the transitive closure; accepted -> 5.5.2.3 and, unconditionally, 5.6
+                                                                              (C04_accepted_cycles_variables, C04_spec_reachable_from,
+                                                                               C04_accepted_spreads_possible, C04_accepted_valid_sections)
+                  - the converse directions for 5.3.1 / 5.3.3, 5.5.2.1 - 5.5.2.3 and 5.8, and with them
+                    validate_verdict up to 5.2.3.1 and 5.3.2: accepted <-> all other sections hold and the
+                    subscription check and the overlapping-fields pass (in the model's terms) find nothing
+                                                                              (C04_fields_valid_silent, C04_spreads_valid_no_primary,
+                                                                               C04_variables_valid_no_primary, C04_verdict_up_to_two_rules_partial)
+                  - addFieldSelections files exactly the inductively collected fields ([InC]) when selection
+                    sets sit at distinct positions                               (C04_collect_complete, C04_collect_sound,
+                                                                               C04_subscription_single_root_model)
+    NOT proved: the equivalences for 5.2.3.1 (subscription root: the Spec's CollectFields against [InC];
+    the model side is proved) and 5.3.2 (FieldsInSetCanMerge / SameResponseShape), hence validate_verdict itself;
+    validate_error_located.  These are covered on every run by the correspondence check and the
+    Spec oracle only. *)
 From Coq Require Import List NArith.
 From ApiFu Require Import Base.Sexp Vld.Ast Vld.Inspect Vld.InspectProofs Vld.TypeInfoModel Vld.TypeInfoPure Vld.ValidatorModel Vld.ValidSpec
      Vld.Hyps Vld.ProofsCommon Vld.ProofsDirectives Vld.ProofsArguments Vld.ProofsFragDecl Vld.ProofsValues
-     Vld.ProofsCycles Vld.ProofsVarsOrder Vld.ProofsOrder Vld.ProofsOperations Vld.ProofsTotal Vld.Enumerate Vld.ProofsFields Vld.ProofsMemo Vld.ValidatorProofs Vld.ProofsSpreads Vld.ProofsSecondary Vld.ProofsDepth Vld.ProofsDepthRule Vld.MemoTransfer Vld.ProofsMemoConverse Vld.MemoEquiv Vld.ProofsTypeInfoValues Vld.Witness.
+     Vld.ProofsCycles Vld.ProofsVarsOrder Vld.ProofsOrder Vld.ProofsOperations Vld.ProofsTotal Vld.Enumerate Vld.ProofsFields Vld.ProofsMemo Vld.ValidatorProofs Vld.ProofsSpreads Vld.ProofsSecondary Vld.ProofsSecondaryAll Vld.ProofsSpreadsSpec Vld.ProofsFieldsConverse Vld.ProofsVarsConverse Vld.ProofsComplete Vld.ProofsCollect Vld.ProofsSpecReach Vld.ProofsVarsSpec Vld.ProofsDepth Vld.ProofsDepthRule Vld.MemoTransfer Vld.ProofsMemoConverse Vld.MemoEquiv Vld.ProofsTypeInfoValues Vld.Witness.
 Import ListNotations.
 
 (** ** determinism: acceptance is a function of schema, features and document alone *)
@@ -216,18 +223,35 @@ Theorem C04_filter_secondary_only_without_primary : forall errs e,
   In e (filter_primary errs) -> e_sec e = true -> forall e', In e' errs -> e_sec e' = true.
 Proof. exact filter_primary_secondary. Qed.
 
-(** ** secondary errors (partial)
-    [all_rules] is the pipeline before the primary / secondary filter, run on the annotated document
-    NewTypeInfo produces.  If its result has no primary error, then every field occurrence of every
-    definition sits on a composite, defined parent type ([good]) and four of the eight rule groups
-    (first field visitor, fragment declarations, directives, fragment spreads with the cycle search)
-    reported nothing at all — so none of the secondary errors of these groups (field of unknown
-    parent, unknown spread target inside an undefined scope, ...) survives the filter alone.
-    [valid_root] is a premise here (its failure is the primary error EOpUnsupported of the
-    operations group, not yet connected). *)
-Theorem C04_secondary_never_alone_partial : forall pi S F D errs,
-  order_ok pi -> schema_ok S = true -> valid_root S D = true ->
+(** ** secondary_never_alone
+    A secondary error ("no field info", "no location type", "undefined fragment" met again by
+    addFieldSelections, ...) repeats what another rule reports as a primary error; ValidateDocument
+    drops the secondary ones when a primary one exists.  It never returns a secondary error: when no
+    rule group reports a primary error, no rule group reports anything.  Hypotheses on the schema,
+    both decidable and evaluated on every generated schema: [schema_ok], and [schema_args_ok]: the
+    argument definitions of a field, of an introspection meta field or of a directive have distinct
+    names (they are the keys of a Go map) and input types (schema.New rejects anything else).
+    [validate_model_memo] is the pipeline as it is (checked-pairs memo), [validate_model] the same
+    without the memo; [all_rules] / [all_rules_m] are they before the filter, on the document
+    NewTypeInfo annotates. *)
+Theorem C04_secondary_never_alone : forall pi, order_ok pi -> forall S F D errs e,
+  schema_ok S = true -> schema_args_ok S = true ->
+  validate_model_memo repaired pi S F D = Done errs -> In e errs -> e_sec e = false.
+Proof. exact secondary_never_alone_memo. Qed.
+Theorem C04_secondary_never_alone_plain : forall pi, order_ok pi -> forall S F D errs e,
+  schema_ok S = true -> schema_args_ok S = true ->
+  validate_model repaired pi S F D = Done errs -> In e errs -> e_sec e = false.
+Proof. exact secondary_never_alone. Qed.
+Theorem C04_no_primary_then_nothing : forall pi, order_ok pi -> forall S F D errs,
+  schema_ok S = true -> schema_args_ok S = true ->
+  all_rules_m repaired pi S F (pti_doc (q_unwrap_obj repaired) S F D) = Done errs -> primary errs = [] -> errs = [].
+Proof. exact no_primary_then_nothing_memo. Qed.
+(** on the way: without a primary error every operation has a root type, every field occurrence
+    sits on a composite, defined parent type ([good]), and so on ([schema_args_ok] not needed) *)
+Theorem C04_no_primary_then_scopes_good : forall pi S F D errs,
+  order_ok pi -> schema_ok S = true ->
   all_rules repaired pi S F (pti_doc (q_unwrap_obj repaired) S F D) = Done errs -> primary errs = [] ->
+  valid_root S D = true /\
   (forall d o, In d D -> In o (ssels_ss S F (model_def_scope S F d) (def_sub d)) -> good S (fst o)) /\
   r_errs (inspect (fields_enter S F) pop (tree_doc (pti_doc (q_unwrap_obj repaired) S F D)) rst0) = [] /\
   rule_fragment_declarations pi S F (pti_doc (q_unwrap_obj repaired) S F D) = [] /\
@@ -238,8 +262,8 @@ Proof. exact no_primary_then_silent. Qed.
 (** ** what C01's [doc_ok] takes from validation (C01 Properties header, INTERFACE TO C04)
     (a) type conditions composite: valid_5_5_1;  (b) @skip/@include conditions, literal half:
     valid_5_7 and valid_5_6 (the [if:] literal coerces to Boolean!) — the variable half
-    ("a variable used in a directive is declared Boolean") is C04_variables_rule_iff and is NOT yet
-    connected to the Spec's 5.8.5;  (c) the root type exists: valid_root;  (f) every field is
+    ("a variable used in a directive is declared Boolean") is C04_accepted_variable_usages_allowed
+    with C04_usage_allowed_at_named_nonnull, see C04_validate_ok_doc_ok_partial below;  (c) the root type exists: valid_root;  (f) every field is
     defined on the parent type of its selection set: fields_defined, valid_5_3_1.
     (d) (e) (i-depth) are C01's own, (g) is C05's, (h) is [schema_ok]. *)
 Theorem C04_accepted_doc_ok_conjuncts : forall pi S F D,
@@ -249,6 +273,150 @@ Theorem C04_accepted_doc_ok_conjuncts : forall pi S F D,
   valid_root S D = true /\
   (fields_defined S F D = true /\ valid_5_3_1 S F D = true).
 Proof. exact accepted_doc_ok_conjuncts. Qed.
+
+(** ** 5.5.2.2 and 5.8 in the Spec's own formulation
+    The Spec decides reachability between fragments by a fuel-bounded breadth-first closure
+    ([ValidSpec.reach]); it is exactly the transitive closure of "spreads directly" (the fuel, one
+    more than the number of spreads written in the document, always suffices). *)
+Theorem C04_spec_reachable_from : forall D n x, In x (reachable_from D n) <-> plus (spreads_of D) n x.
+Proof. exact spec_reachable_from. Qed.
+Theorem C04_spec_op_fragments : forall D d x,
+  In x (op_fragments D d) <-> In x (spreads_of_def d) \/ exists f, In f (spreads_of_def d) /\ plus (spreads_of D) f x.
+Proof. exact spec_op_fragments. Qed.
+
+(** accepted => no fragment reaches itself (5.5.2.2); variable names unique per operation (5.8.1),
+    declared with input types (5.8.2), every use declared (5.8.3), every variable used (5.8.4), every
+    use allowed at its position (5.8.5) — uses enumerated by the Spec with the Spec's types, over
+    the fragments the Spec says the operation includes *)
+Theorem C04_accepted_cycles_variables : forall pi S F D,
+  order_ok pi -> schema_ok S = true -> validate_model_memo repaired pi S F D = Done [] ->
+  valid_5_5_2_2 D = true /\
+  valid_5_8_1 D = true /\ valid_5_8_2 S F D = true /\ valid_5_8_3 S F D = true /\ valid_5_8_4 S F D = true /\ valid_5_8_5 S F D = true.
+Proof. exact memo_accepted_cycles_variables. Qed.
+
+(** 5.5.2.3: every spread and typed inline fragment can apply.  The validator takes the
+    implementations of an interface from Schema.InterfaceImplementations, the Spec from the object
+    types that declare it: [schema_impls_ok] (decidable, evaluated on every generated schema) says
+    that the two agree and that type names are unique keys. *)
+Theorem C04_accepted_spreads_possible : forall pi S F D,
+  order_ok pi -> schema_impls_ok S = true -> validate_model_memo repaired pi S F D = Done [] -> valid_5_5_2_3 S F D = true.
+Proof. exact memo_accepted_spreads_possible. Qed.
+
+(** every section for which "accepted => holds" is proved, in one statement and without side
+    condition on the document (5.6 needs [schema_args_ok]: argument types are input types) *)
+Theorem C04_accepted_valid_sections : forall pi S F D,
+  order_ok pi -> schema_ok S = true -> schema_args_ok S = true -> validate_model_memo repaired pi S F D = Done [] ->
+  valid_5_2_1_1 D = true /\ valid_5_2_2_1 D = true /\ valid_root S D = true /\
+  valid_5_3_1 S F D = true /\ valid_5_3_3 S F D = true /\
+  valid_5_4 S F D = true /\
+  valid_5_5_1 S F D = true /\ valid_5_5_2_1 D = true /\ valid_5_5_2_2 D = true /\
+  valid_5_6 S F D = true /\
+  valid_5_7 S D = true /\
+  valid_5_8_1 D = true /\ valid_5_8_2 S F D = true /\ valid_5_8_3 S F D = true /\ valid_5_8_4 S F D = true /\ valid_5_8_5 S F D = true.
+Proof. exact memo_accepted_valid_sections. Qed.
+
+(** the same per use, without the Spec's "if the declared type is an input type" escape; and what
+    "allowed at a position of type b!" (the [if:] of @skip / @include, b = Boolean) says about the
+    declared type: it is b under non-null wrappers, and it is non-null itself unless the position or
+    the variable has a default *)
+Theorem C04_accepted_variable_usages_allowed : forall pi S F D,
+  order_ok pi -> schema_ok S = true -> validate_model_memo repaired pi S F D = Done [] ->
+  forall ot n vars dirs sub, In (DOp ot n vars dirs sub) D ->
+  forall u, In u (op_usages S F D (DOp ot n vars dirs sub)) ->
+  exists vd, find_var (u_name u) vars = Some vd /\
+  exists vt, declared_type S F (vd_type vd) = Some vt /\
+  forall lt, u_type u = Some lt -> usage_allowed vd vt lt (u_default u) = true.
+Proof. exact memo_accepted_usages_allowed. Qed.
+Theorem C04_usage_allowed_at_named_nonnull : forall vd vt b ds,
+  usage_allowed vd vt (StNonNull (StNamed b)) ds = true ->
+  peel vt = StNamed b /\
+  (is_nonnull vt = true \/ ds = true \/ exists x, vd_default vd = Some x /\ is_null x = false).
+Proof. exact usage_allowed_named. Qed.
+
+(** ** validate_ok_doc_ok (partial): the conjuncts of C01's [doc_ok] that rest on a validation rule
+    (items (a), (b), (c), (f) of the list in C01's Properties header), in this development's terms.
+    NOT here: the step from "defined on the parent type of the selection set" to "defined on every
+    possible object type" and the merged sub-selections (items (f) second half and (i): C03's
+    [validate_establishes_typing], over the execution document and schema), (d) (e) (C01's own),
+    (g) (C05), (h) (schema construction). *)
+Theorem C04_validate_ok_doc_ok_partial : forall pi S F D,
+  order_ok pi -> schema_ok S = true -> validate_model_memo repaired pi S F D = Done [] ->
+  valid_5_5_1 S F D = true /\
+  (valid_5_7 S D = true /\ (values_typed_input S F D = true -> valid_5_6 S F D = true)) /\
+  (forall ot n vars dirs sub, In (DOp ot n vars dirs sub) D ->
+   forall u, In u (op_usages S F D (DOp ot n vars dirs sub)) ->
+   exists vd, find_var (u_name u) vars = Some vd /\
+   exists vt, declared_type S F (vd_type vd) = Some vt /\
+   forall lt, u_type u = Some lt -> usage_allowed vd vt lt (u_default u) = true) /\
+  valid_root S D = true /\
+  (fields_defined S F D = true /\ valid_5_3_1 S F D = true).
+Proof. exact validate_ok_doc_ok_partial. Qed.
+
+(** ** the converse directions: the Spec's sections leave a rule group without (primary) errors
+    5.3.1 / 5.3.3 with root types and type conditions: the first visitor of validateFields reports
+    nothing and every selection set has a composite parent type. *)
+Theorem C04_fields_valid_silent : forall S F D,
+  schema_ok S = true ->
+  valid_root S D = true -> valid_5_5_1 S F D = true -> valid_5_3_1 S F D = true -> valid_5_3_3 S F D = true ->
+  (forall d o, In d D -> In o (ssels_ss S F (model_def_scope S F d) (def_sub d)) -> good S (fst o)) /\
+  r_errs (inspect (fields_enter S F) pop (tree_doc (pti_doc (q_unwrap_obj repaired) S F D)) rst0) = [].
+Proof. exact fields_valid_silent. Qed.
+(** 5.5.2.1 - 5.5.2.3: validateFragmentSpreads reports no primary error *)
+Theorem C04_spreads_valid_no_primary : forall pi, order_ok pi -> forall S F D,
+  schema_impls_ok S = true -> NoDup (frag_names D) -> forall errs,
+  valid_5_5_2_1 D = true -> valid_5_5_2_2 D = true -> valid_5_5_2_3 S F D = true ->
+  rule_fragment_spreads repaired pi S F (pti_doc (q_unwrap_obj repaired) S F D) = Done errs -> primary errs = [].
+Proof. exact spreads_valid_no_primary. Qed.
+(** 5.8.1 - 5.8.5: validateVariables reports no primary error.  [schema_defaults_ok]: a non-null
+    directive argument or input object field has no [null] default (the one case in which TypeInfo's
+    "this location has a default" and the specification's differ). *)
+Theorem C04_variables_valid_no_primary : forall pi S F D errs,
+  order_ok pi -> schema_ok S = true -> schema_defaults_ok S = true -> valid_5_5_1_1 D = true ->
+  valid_5_8_1 D = true -> valid_5_8_2 S F D = true -> valid_5_8_3 S F D = true -> valid_5_8_4 S F D = true -> valid_5_8_5 S F D = true ->
+  rule_variables pi S (pti_doc (q_unwrap_obj repaired) S F D) = Done errs -> primary errs = [].
+Proof. exact variables_valid_no_primary_schema. Qed.
+
+(** ** validate_verdict up to two rules (partial)
+    Accepted <-> every section of chapter 5 other than 5.2.3.1 and 5.3.2 holds in the Spec's
+    formulation, and the subscription check and the overlapping-fields pass — these two stated in the
+    model's terms ([sub_ok]: addFieldSelections collects exactly one response name; the pass with the
+    memo reports no primary error) — find nothing.  What separates this from validate_verdict is the
+    equivalence of these two with the Spec's CollectFields / FieldsInSetCanMerge. *)
+Theorem C04_verdict_up_to_two_rules_partial : forall pi S F D,
+  order_ok pi ->
+  schema_ok S = true -> schema_args_ok S = true -> schema_impls_ok S = true -> schema_defaults_ok S = true ->
+  (validate_model_memo repaired pi S F D = Done [] <->
+   (valid_5_2_1_1 D = true /\ valid_5_2_2_1 D = true /\ valid_root S D = true /\
+    valid_5_3_1 S F D = true /\ valid_5_3_3 S F D = true /\
+    valid_5_4 S F D = true /\
+    valid_5_5_1 S F D = true /\ valid_5_5_2_1 D = true /\ valid_5_5_2_2 D = true /\ valid_5_5_2_3 S F D = true /\
+    valid_5_6 S F D = true /\
+    valid_5_7 S D = true /\
+    valid_5_8_1 D = true /\ valid_5_8_2 S F D = true /\ valid_5_8_3 S F D = true /\ valid_5_8_4 S F D = true /\ valid_5_8_5 S F D = true) /\
+   (forall d, In d D -> sub_ok repaired (pti_doc (q_unwrap_obj repaired) S F D) (pti_def (q_unwrap_obj repaired) S F d) = true) /\
+   (forall e2, rule_fields_m repaired pi S F (pti_doc (q_unwrap_obj repaired) S F D) = Done e2 -> primary e2 = [])).
+Proof. exact verdict_up_to_two_rules. Qed.
+
+(** ** addFieldSelections against an inductive characterisation (the model side of 5.2.3.1)
+    [InC A ss f]: field [f] is written in [ss], or in an inline fragment of it, or in the fragment a
+    spread of it names — transitively.  When the selection sets of the document sit at pairwise
+    distinct positions (true of a parsed document), addFieldSelections files exactly these fields,
+    whatever it visits first and however often a fragment is spread; hence the subscription check
+    "one entry" says: the collected fields exist and share one response name. *)
+Theorem C04_collect_complete : forall A,
+  (forall s1 s2, In s1 (all_subs A) -> In s2 (all_subs A) -> ss_pos s1 = ss_pos s2 -> s1 = s2) ->
+  forall fuel ss m v, In ss (all_subs A) -> collect repaired A fuel [] [] ss = COk m v ->
+  forall f, InC A ss f -> In (response_name f) (keys m).
+Proof. exact collect_complete. Qed.
+Theorem C04_collect_sound : forall A fuel ss m v k,
+  collect repaired A fuel [] [] ss = COk m v -> In k (keys m) -> exists f, InC A ss f /\ response_name f = k.
+Proof. exact collect_sound. Qed.
+Theorem C04_subscription_single_root_model : forall A,
+  (forall s1 s2, In s1 (all_subs A) -> In s2 (all_subs A) -> ss_pos s1 = ss_pos s2 -> s1 = s2) ->
+  forall ss m v, In ss (all_subs A) -> add_selections repaired A [] (Some ss) = COk m v ->
+  (Nat.eqb (length m) 1 = true <->
+   (exists f, InC A ss f) /\ forall f g, InC A ss f -> InC A ss g -> response_name f = response_name g).
+Proof. exact single_key_iff. Qed.
 
 (** ** rule groups against sections of the specification *)
 (** 5.7.1 – 5.7.3 (directives defined, in valid locations, unique per location): no hypothesis *)
@@ -421,8 +589,26 @@ Print Assumptions C04_accepted_iff_rules_silent.
 Print Assumptions C04_all_rules_silent.
 Print Assumptions C04_filter_nil.
 Print Assumptions C04_filter_secondary_only_without_primary.
-Print Assumptions C04_secondary_never_alone_partial.
+Print Assumptions C04_secondary_never_alone.
+Print Assumptions C04_secondary_never_alone_plain.
+Print Assumptions C04_no_primary_then_nothing.
+Print Assumptions C04_no_primary_then_scopes_good.
 Print Assumptions C04_accepted_doc_ok_conjuncts.
+Print Assumptions C04_spec_reachable_from.
+Print Assumptions C04_spec_op_fragments.
+Print Assumptions C04_accepted_cycles_variables.
+Print Assumptions C04_accepted_spreads_possible.
+Print Assumptions C04_accepted_valid_sections.
+Print Assumptions C04_accepted_variable_usages_allowed.
+Print Assumptions C04_usage_allowed_at_named_nonnull.
+Print Assumptions C04_validate_ok_doc_ok_partial.
+Print Assumptions C04_fields_valid_silent.
+Print Assumptions C04_spreads_valid_no_primary.
+Print Assumptions C04_variables_valid_no_primary.
+Print Assumptions C04_verdict_up_to_two_rules_partial.
+Print Assumptions C04_collect_complete.
+Print Assumptions C04_collect_sound.
+Print Assumptions C04_subscription_single_root_model.
 Print Assumptions C04_rule_directives_iff.
 Print Assumptions C04_rule_fragment_declarations_iff.
 Print Assumptions C04_rule_operations_iff_partial.
